@@ -129,7 +129,15 @@ def handleC02 (cmd : String) (args : List Sexp) : Option Sexp :=
       let r ← asInt? r; let d ← asInt? d; let td ← C02D.tree? tree
       match td with
       | .node bs names es =>
-        match riNode r d bs names es with
+        match riPublic r (some d) bs names es with
+        | .error e => pure (C02D.errSexp e)
+        | .ok res => pure (tagged "ok" [C02D.treeSexp res])
+      | _ => pure (C02D.errSexp .type)
+  | "c02.ri_none", [r, tree] => do
+      let r ← asInt? r; let td ← C02D.tree? tree
+      match td with
+      | .node bs names es =>
+        match riPublic r none bs names es with
         | .error e => pure (C02D.errSexp e)
         | .ok res => pure (tagged "ok" [C02D.treeSexp res])
       | _ => pure (C02D.errSexp .type)
